@@ -94,7 +94,7 @@ def in_plain_domain(octets: bytes, abort: bool) -> bool:
 
 def corrupt(rng, octets: bytes) -> tuple[bytes, str]:
     """A damaged variant of a well-formed frame; returns (octets, class)."""
-    kind = rng.choice(("bitflip", "truncate", "truncate_after_hcs", "extra", "wrong_length", "swap_fcs", "header_only_cut", "invert_fcs", "invert_hcs_and_fcs", "fcs_plus_one"))
+    kind = rng.choice(("bitflip", "truncate", "truncate_after_hcs", "extra", "wrong_length", "swap_fcs", "header_only_cut", "invert_fcs", "invert_hcs_and_fcs", "fcs_plus_one", "tiny_length"))
     b = bytearray(octets)
     if kind == "bitflip":
         i = rng.randrange(len(b))
@@ -108,6 +108,16 @@ def corrupt(rng, octets: bytes) -> tuple[bytes, str]:
         b = bytearray(h[: max(1, len(h) - rng.randint(1, 3))])
     elif kind == "extra":
         b += rng.randbytes(rng.randint(1, 4))
+    elif kind == "tiny_length":
+        # length field below the size of the header itself, every check sequence correct
+        f = hdlc_ref.parse(octets)
+        fmt = (f.format_type << 12) | (int(f.segmentation) << 11) | rng.randint(0, 6)
+        header = bytes((fmt >> 8, fmt & 0xFF)) + f.destination + f.source + bytes((f.control,))
+        out = header + fcs16.trailer(header)
+        if f.info:
+            out += f.info
+            out += fcs16.trailer(out)
+        b = bytearray(out)
     elif kind == "wrong_length":
         # wrong length field, HCS and FCS recomputed so that only the length betrays it
         f = hdlc_ref.parse(octets)
